@@ -161,7 +161,9 @@ func (s *Sequencer) GetNextBatch(ctx context.Context, req coresequencer.GetNextB
 		}
 	}
 OuterLoop:
-	for size < maxBytes {
+	// Transactions that did not fit into an earlier batch come first: as long as some of them are still
+	// waiting, nothing newer from the DA layer may be released ahead of them.
+	for size < maxBytes && s.pendingTxs.Len() == 0 {
 		// if we have exceeded maxHeightDrift, stop fetching more transactions
 		if nextDAHeight > lastDAHeight+s.maxHeightDrift {
 			s.logger.Debug("exceeded max height drift, stopping fetching more transactions")
@@ -174,6 +176,11 @@ OuterLoop:
 			s.logger.Warn("failed to retrieve transactions from DA layer via helper", "error", res.Message)
 			break OuterLoop
 		}
+		if res.Code == coreda.StatusHeightFromFuture {
+			// this height does not exist yet: it must be scanned again later, not skipped
+			s.logger.Debug("DA height not yet available, stopping fetching more transactions", "height", nextDAHeight)
+			break OuterLoop
+		}
 		if len(res.Data) == 0 { // TODO: some heights may not have  blobs, find a better way to handle this
 			// stop fetching more transactions and return the current batch
 			s.logger.Debug("no transactions to retrieve from DA layer via helper for", "height", nextDAHeight)
@@ -184,6 +191,9 @@ OuterLoop:
 				if size+txSize >= maxBytes {
 					// Push remaining transactions back to the queue
 					s.pendingTxs.Push(res.Data[i:], res.IDs[i:], res.Timestamp)
+					// the rest of this height now lives in the pending queue: scanning the height again
+					// would release its transactions a second time
+					nextDAHeight++
 					break OuterLoop
 				}
 				resp.Batch.Transactions = append(resp.Batch.Transactions, tx)
